@@ -1,5 +1,6 @@
 import LoguruModel.Emit.Base
 import LoguruModel.Generated.EmitShape
+import LoguruModel.Emit.Print
 /-
 Emit area (C04) – model of what happens to ONE message in ONE handler and of the loops around it,
 under an arbitrary fault oracle.  Mirrors, in the code's order:
@@ -20,10 +21,6 @@ Sequential model: one logging thread; the enqueue worker runs when the logging t
 namespace Emit
 open Py
 
-inductive SinkKind where
-  | callable | stream | streamFlush | file | coroutine | standard
-  deriving DecidableEq, Repr, Inhabited
-
 /-- configuration of a handler, fixed by `logger.add(...)` -/
 structure Cfg where
   id : Nat
@@ -34,6 +31,8 @@ structure Cfg where
   hasFilter : Bool := false
   dynamic : Bool := false
   serialize : Bool := false
+  /-- a stream sink whose object has a callable `stop` attribute (`StreamSink._stoppable`) -/
+  stoppable : Bool := true
   deriving DecidableEq, Repr, Inhabited
 
 /-- what a sink may do with the logger from inside its `write` -/
@@ -49,6 +48,9 @@ inductive InnerAct where
 /-- what `sys.stderr` is while a report is printed -/
 inductive StderrMode where
   | ok | absent | fails (e : Err)
+  /-- stderr accepts the report up to chunk `c` (excluded), whose `write` raises `e`: a pipe that breaks in the
+      middle of a report -/
+  | failsAt (c : Chunk) (e : Err)
   deriving DecidableEq, Repr, Inhabited
 
 /-- everything the environment (user code, runtime) decides: the fault oracle and friends.
@@ -103,6 +105,8 @@ inductive Event where
   | report (hid : Nat) (msg : Option Nat) (kind : Err) (placeholder : Bool) (src : Src)
   /-- an exception handed to the event loop's exception handler by a done-callback -/
   | loopError (hid : Nat) (msg : Nat) (kind : Err)
+  /-- a report that stderr accepted only in part: the chunks that were written (never empty, never all four) -/
+  | partialReport (hid : Nat) (msg : Option Nat) (placeholder : Bool) (chunks : List Chunk) (src : Src)
   deriving DecidableEq, Repr
 
 inductive Res where
@@ -128,7 +132,29 @@ def stageActive (env : Env) (c : Cfg) (i : Nat) : Stage → Bool
 def faultAt (env : Env) (c : Cfg) (i : Nat) (st : Stage) : Option Err :=
   if stageActive env c i st then env.fault i c.id st else none
 
-/-- `ErrorInterceptor.print`: the events it produces and the exception it lets escape -/
+/-- the write-level oracle (`Emit/Print.lean`) a stderr mode stands for -/
+def oracleOf (m : StderrMode) (strFails : Bool) : Print.Oracle :=
+  match m with
+  | .ok => ⟨true, fun _ => none, strFails⟩
+  | .absent => ⟨false, fun _ => none, strFails⟩
+  | .fails e => ⟨true, fun _ => some e, strFails⟩
+  | .failsAt c e => ⟨true, fun c' => if c' = c then some e else none, strFails⟩
+
+/-- what a run of `print` shows on stderr, as events: a complete report, nothing, or a partial report -/
+def eventsOf (o : Print.Out) (hid : Nat) (msg : Option Nat) (kind : Err) (src : Src) : List Event :=
+  if o.chunks = Print.fullReport then [.report hid msg kind o.placeholder src]
+  else if o.chunks = [] then []
+  else [.partialReport hid msg o.placeholder o.chunks src]
+
+/-- `str(record)` raises for the record `print` is given (`None` for a failing `get()`) -/
+def strFailsOf (env : Env) : Option Nat → Bool
+  | some m => env.strFails m
+  | none => false
+
+/-- `ErrorInterceptor.print`: the events it produces and the exception it lets escape.  The three whole-stream
+    modes are spelled out; a stream that breaks in the middle of the report is the write-level program
+    `Gen.printProgram` run by `Print.printP` – and `print_eq_printP` (Emit/Lemmas.lean) shows that the three
+    spelled-out arms are that same program too. -/
 def print (env : Env) (i hid : Nat) (msg : Option Nat) (kind : Err) (src : Src) : List Event × Option Err :=
   match env.stderr i hid with
   | .absent => if Gen.printSkipsWhenNoStderr then ([], none) else ([], some .attributeError)
@@ -139,6 +165,9 @@ def print (env : Env) (i hid : Nat) (msg : Option Nat) (kind : Err) (src : Src) 
       | none => false
     if ph && !Gen.printGuardsRecordStr then ([], some .other)
     else ([.report hid msg kind ph src], none)
+  | .failsAt c e =>
+    let o := Print.printP Gen.printProgram (oracleOf (.failsAt c e) (strFailsOf env msg))
+    (eventsOf o hid msg kind src, o.escapes)
 
 inductive Pre where
   | pass | skip | fail (e : Err)
@@ -322,12 +351,21 @@ def plainLock (body : Step) : Step := fun s =>
 def stopLock (body : Step) : Step :=
   if Gen.stopUsesProtectedLock then protectedLock body else plainLock body
 
+/-- the fault of `sink.stop()`: user code runs there only as the sink class's `stop` method says
+    (`Gen.sinkStop`, read from `_simple_sinks.py`): a callable or coroutine sink runs none, a stream sink runs the
+    stream's `stop()` if it has one, a `logging.Handler` / file sink always does (close / compression, retention) -/
+def stopFault (env : Env) (c : Cfg) (k : Nat) : Option Err :=
+  match Gen.sinkStop c.kind with
+  | .noUserCode => none
+  | .userIfCapable => if c.stoppable then env.fault k c.id .stop else none
+  | .userAlways => env.fault k c.id .stop
+
 /-- `Handler.stop()`; `k` indexes the fault oracle -/
 def stopH (env : Env) (c : Cfg) (k : Nat) : Step :=
   stopLock (fun s =>
     let s1 := { s with stopped := true }
     let w := if c.enqueue && s1.workerAlive then workerRun env c (s1.queue ++ [.sentinel]) s1 else (s1, [])
-    match env.fault k c.id .stop with
+    match stopFault env c k with
     | some e => ⟨w.1, w.2, .raised e⟩
     | none => ⟨{ w.1 with sinkStopped := true, tasks := [] }, w.2, .ok⟩)
 
@@ -425,16 +463,34 @@ def removeW (env : Env) (hid k : Nat) (w : World) : WRet :=
       | .ok => ⟨{ reg := rest, minLevel := minLevelOf rest, removed := w.removed ++ [(c, r.st)] }, r.ev, .ok⟩
       | x => ⟨{ w with reg := w.reg.map (fun p => if p.1.id = hid then (p.1, r.st) else p) }, r.ev, x⟩
 
+/-- the loop of `logger.remove()` (no argument: every handler) over the ids read at its start, each iteration
+    being what `remove(hid)` does; a `stop()` that raises ends the loop there (the extractor checks that the call
+    to `stop()` is a plain statement of the loop body, not wrapped in a `try`) -/
+def removeLoop (env : Env) (k : Nat) : List Nat → World → WRet
+  | [], w => ⟨w, [], .ok⟩
+  | hid :: rest, w =>
+    let r := removeW env hid k w
+    match r.res with
+    | .ok => let t := removeLoop env k rest r.w; ⟨t.w, r.ev ++ t.ev, t.res⟩
+    | _ => r
+
+/-- `logger.remove()`: `handler_ids = list(core.handlers)`, then the loop -/
+def removeAllW (env : Env) (k : Nat) (w : World) : WRet :=
+  removeLoop env k (w.reg.map (fun p => p.1.id)) w
+
 inductive Op where
   | log (i : Nat)
   | complete
   | remove (hid k : Nat)
+  /-- `logger.remove()` – all handlers; `k` indexes the fault oracle of `stop` -/
+  | removeAll (k : Nat)
   deriving DecidableEq, Repr
 
 def stepW (env : Env) (n : Nat) (w : World) : Op → WRet
   | .log i => logW env n i w
   | .complete => completeW env w
   | .remove hid k => removeW env hid k w
+  | .removeAll k => removeAllW env k w
 
 /-- a whole history; the caller goes on after an exception (it caught it), and stops for good when
     blocked -/
